@@ -32,13 +32,16 @@
 (*                            the driver's close released the device         *)
 (*   SetKeepsRunning = FALSE  storage_set stores the driver's Armed answer over a   *)
 (*                            Running state (the storage is then never stopped) *)
+(*   SetStopsRejected = FALSE storage_set stores the driver's rejection over a   *)
+(*                            Running state without stopping the device (it  *)
+(*                            is then never stopped: C16's descriptor leak)  *)
 (*   Strict = TRUE            reading of "running" in which only a start     *)
 (*                            that succeeded makes a storage device running  *)
 (*                            (default FALSE: the DeviceState the storage    *)
 (*                            driver answered last is the driver-side truth) *)
 (***************************************************************************)
 EXTENDS Naturals, Integers, Sequences, FiniteSets, TLC, Json
-CONSTANTS Kind, MaxOpens, FixOpenLeak, FixDescribeLeak, CloseStateFirst, SetKeepsRunning, Strict
+CONSTANTS Kind, MaxOpens, FixOpenLeak, FixDescribeLeak, CloseStateFirst, SetKeepsRunning, SetStopsRejected, Strict
 
 CLOSED == 0
 AWAIT == 1
@@ -72,8 +75,8 @@ RunAfter(c, r, run) ==
   ELSE IF Strict THEN (IF c = "start" THEN (IF r = RUNNING THEN TRUE ELSE run)
                        ELSE IF c = "stop" THEN (IF r = RUNNING THEN run ELSE FALSE)
                        ELSE run)
-  ELSE (IF c = "set" /\ r = ARMED THEN run          \* accepting settings does not stop a running device
-        ELSE IF c \in {"set", "start", "append", "stop"} THEN r = RUNNING ELSE run)
+  ELSE (IF c = "set" THEN (r = RUNNING \/ run)      \* neither accepting nor rejecting settings stops a running device
+        ELSE IF c \in {"start", "append", "stop"} THEN r = RUNNING ELSE run)
 
 \* walk over the driver calls one HAL call issued: <<running flag afterwards, first rule broken>>
 RECURSIVE Walk(_, _, _, _)
@@ -185,9 +188,14 @@ CamClose == /\ IsCam /\ open
             /\ \E c \in Codes : Do("close", NORMAL, <<"close">>, <<c>>, OK, CLOSED, FALSE, 0, "none")
 
 \* ---- storage.c ----------------------------------------------------------------------------------------------
+\* storage_set: the driver's answer is stored (Armed over Running means "accepted, still running"); a rejection of the
+\* settings of a running device is stored after the device was stopped (storage_stop), as camera_set does
 StoSet == /\ ~IsCam /\ open
-          /\ \E r \in States : Do("set", NORMAL, <<"set">>, <<r>>, IF r = ARMED THEN OK ELSE ERR,
-                                    IF SetKeepsRunning /\ r = ARMED /\ hs = RUNNING THEN RUNNING ELSE r, TRUE, 0, "none")
+          /\ \E r \in States :
+               IF SetStopsRejected /\ hs = RUNNING /\ r \notin {ARMED, RUNNING}
+               THEN \E r2 \in States : Do("set", NORMAL, <<"set", "stop">>, <<r, r2>>, ERR, r, TRUE, 0, "none")
+               ELSE Do("set", NORMAL, <<"set">>, <<r>>, IF r = ARMED THEN OK ELSE ERR,
+                       IF SetKeepsRunning /\ r = ARMED /\ hs = RUNNING THEN RUNNING ELSE r, TRUE, 0, "none")
 StoGet == /\ ~IsCam /\ open
           /\ \E f \in {"get", "get_meta", "reserve"} : Same(f, NORMAL, <<f>>, <<0>>, OK)
 StoStart == /\ ~IsCam /\ open
@@ -241,6 +249,10 @@ ReportedStateFollowsDriver == open => hs = exp
 ClosedMeansClosed == ~open => (hs = CLOSED /\ ~drun)
 \* a device the HAL believes is running is running for the driver (else stop / get_frame / append would reach it)
 RunningIsTrue == (open /\ hs = RUNNING) => drun
+\* a set never leaves a running storage device behind a state that is not Running without having asked it to stop
+Range(q) == {q[i] : i \in 1..Len(q)}
+SetLeavesNoRunner == [][(~IsCam /\ open /\ hs = RUNNING /\ lastAct'.f = "set" /\ hs' # RUNNING /\ drun')
+                           => "stop" \in Range(lastAct'.cs)]_vars
 
 \* ---- export for replay: every transition of the complete graph ----------------------------------------------
 EmitEdge == PrintT(<<"EDGE", ToJson([s |-> View, a |-> lastAct', d |-> View'])>>)
